@@ -18,7 +18,8 @@ package actor
 // of the events; real mailbox-level races (reply vs timeout vs cancel vs ordinary message vs
 // PoisonPill all queued at once) are produced by the "hold" option: the handler of the first "go"
 // blocks on a gate *after* it has issued its request, so everything fired before "relR" piles up in
-// R's mailbox and is processed in one go afterwards.
+// R's mailbox and is processed in one go afterwards. The "burst" option lets the first "go" issue two
+// requests from the same handler invocation (two blocking calls outstanding at once).
 //
 // Oracle (only what the statement says, see TestVerifC16 for the skipped corners):
 //
@@ -31,7 +32,11 @@ package actor
 //	ordinary-handled-while-blocking        ordinary message handler entered while a StashNonReentrant
 //	                                       request was outstanding (model count and R.blockingCount)
 //	held-message-not-handled-once          a held (stashed) message was handled 0 or ≥2 times at quiescence
-//	held-messages-out-of-arrival-order     held messages were handled in an order other than arrival order
+//	held-messages-out-of-arrival-order     held messages released by the same unstash were handled in an order
+//	                                       other than arrival order
+//	held-message-requeued-behind-later-arrival  same clause, other structure: a held message was released
+//	                                       behind a later arrival that was already waiting in the mailbox, both
+//	                                       were held again and then handled in the swapped order (known finding)
 //	in-flight-limit-exceeded               outstanding calls / R.inFlightCount > maxInFlight (limit set)
 //	counters-not-zero-at-quiescence        R.inFlightCount / R.blockingCount != 0 at the end
 
@@ -788,11 +793,11 @@ func TestVerifC16(t *testing.T) {
 	type opt func(*c16Cfg)
 	mk := func(name string, def reentrancy.Mode, max int, hold bool, opts ...opt) c16Cfg {
 		c := c16Cfg{name: name, defMode: def, maxInFlight: max, hold: hold, nReq: 2, nMsg: 2,
-			horizon: vsched.Pick(6, 8), bound: vsched.Pick(1, 2)}
+			horizon: vsched.Pick(6, 9), bound: vsched.Pick(1, 2)}
 		c.api = [c16MaxReq]int{c16APIPid, c16APIName, c16APIPid}
 		if max >= 2 {
 			c.nReq, c.nMsg = 3, 1
-			c.horizon = vsched.Pick(6, 8)
+			c.horizon = vsched.Pick(6, 9)
 		}
 		for _, o := range opts {
 			o(&c)
